@@ -66,6 +66,13 @@ Theorem C05_completed_operation : forall key_of p, 0 < p_maxb p -> forall s o, G
 Proof. exact exec_good. Qed.
 Print Assumptions C05_completed_operation.
 
+(* ... and are exactly the operations of the in-memory model: what C01 (append, truncate, reopen, HW),
+   C08 (compaction) and C09 (retention) prove about Log.Model holds of what is on disk. *)
+Theorem C05_completed_operation_is_model_operation : forall key_of p, 0 < p_maxb p -> forall s o s', Good s -> op_ok s o ->
+  exec key_of fixed p s o = Some s' -> log_of s' = model_op key_of p (log_of s) o.
+Proof. exact exec_refines. Qed.
+Print Assumptions C05_completed_operation_is_model_operation.
+
 (* Whole histories: any sequence of completed operations and crashes (any number of them, each at any
    effect of any operation), from the empty directory on. *)
 Theorem C05_initial_log : forall key_of p, exists s0, init key_of fixed p = Some s0 /\ Good s0 /\ content (s_disk s0) = [].
